@@ -71,7 +71,7 @@ NUL_OPS = ["asc", "+h", "+h", "set", "+s", "+c", "sc", "sf", "ic", "pc", "ac", "
 QRY = ["at", "ioh", "ios", "ioc", "lih", "lis1", "lis", "cnh", "cns", "sws", "ews", "swh", "ewh", "swsi", "ewsi", "cmp", "cmpi",
        "eqi", "iosi", "lisi", "iohi", "lihi", "pns", "swn", "fl", "eqh", "eqhi", "swhi", "ewhi"]
 PRO = ["cp", "cpp", "sub", "suba", "subu", "wis", "wps", "was", "wih", "wph", "wah", "pad", "lo", "up", "mx", "tr", "wrc", "wrs",
-       "args", "argi", "wsf", "wpf", "wosf", "wopf", "wosh", "woph", "wons", "pls", "wsfh", "wpfh", "wosfi", "wopfi", "woshi", "wophi"]
+       "args", "argi", "wsf", "wpf", "wosf", "wopf", "wosh", "woph", "wons", "pls", "wsfh", "wpfh", "wosfi", "wopfi", "woshi", "wophi", "wiw", "waw", "wpw"]
 
 
 def gen_op(rng, name, ln, alias=0.2):
@@ -142,6 +142,8 @@ def gen_op(rng, name, ln, alias=0.2):
     if name == "args": return "args:%s" % A(rbytes(rng, rng.choice([0, 1, 3, 8, 16]))), ln
     if name == "argi": return "argi:%d" % rng.choice([0, 1, -1, 42, -2147483648, 2147483647, 1000000]), ln
     if name in ("wsf", "wpf"): return "%s:%s" % (name, A(needle(rng))), ln
+    if name == "wiw":  return "wiw:%d:%s:%s" % (idx(rng, ln), A(needle(rng) if rng.random() < 0.5 else rbytes(rng, grow)), rng.choice(["20", "20", "2c20", "", "61", "2d"])), ln
+    if name in ("waw", "wpw"): return "%s:%s:%s" % (name, A(needle(rng) if rng.random() < 0.5 else rbytes(rng, grow)), rng.choice(["20", "20", "2c20", "", "61", "2d"])), ln
     if name in ("wsfh", "wpfh"): return "%s:%d" % (name, rng.choice([ch(rng), ch(rng), 0])), ln
     if name in ("wosfi", "wopfi"): return "%s:%s:%d" % (name, A(needle(rng)), cnt(rng)), ln
     if name in ("woshi", "wophi"): return "%s:%d:%d" % (name, ch(rng), cnt(rng)), ln
